@@ -1175,6 +1175,282 @@ def stream_shapes(ctx, ecs):
                             got, ref, j['ec'].name), desc)
 
 
+# ------------------------------------------------------------------------------------------------ stream (e)
+def stream_polymask(ctx, ecs):
+    """K (round 6): PolygonMask2D.evaluate (mask.pyx: mesh value, then the winding-number fallback over the closed vertex
+    list) and raysect's point_inside_polygon against the model (`pmask`: windingNumber / pointInsidePolygon / polygonMask on the
+    2xN polygon as efit.pyx receives it).  The mesh value is the harness's own Discrete2DMesh built like the constructor does.
+    S: the start vertex never matters (exact, theorem windingNumber_rotate); orientation does not matter away from the boundary
+    (theorem pointInsidePolygon_reverse; in floats `side` of the reversed edge rounds differently within ~1 ulp of an edge)."""
+    from cherab.core.math import PolygonMask2D
+    from cherab.core.math.function import Discrete2DMesh
+    from raysect.core.math.polygon import triangulate2d
+    from raysect.core.math.cython.utility import _point_inside_polygon
+    rng = ctx.rng
+    polys = [('unit-square', [(0.0, 0.0), (1.0, 0.0), (1.0, 1.0), (0.0, 1.0)], None),
+             ('rectangle-cw', [(0.5, -1.0), (0.5, 2.0), (3.0, 2.0), (3.0, -1.0)], None),
+             ('L-shape', [(0.0, 0.0), (2.0, 0.0), (2.0, 1.0), (1.0, 1.0), (1.0, 2.0), (0.0, 2.0)], None),
+             ('comb', [(0.0, 0.0), (5.0, 0.0), (5.0, 2.0), (4.0, 2.0), (4.0, 1.0), (3.0, 1.0), (3.0, 2.0), (2.0, 2.0), (2.0, 1.0),
+                       (1.0, 1.0), (1.0, 2.0), (0.0, 2.0)], None)]
+    use = ecs if ctx.n(0, 1) else ecs[:4]
+    polys += [('lcfs:' + ec.name, [(float(a), float(b)) for a, b in ec.vs], ec) for ec in use]
+    npts = ctx.n(60, 300)
+    for name, vs, ec in polys:
+        n = len(vs)
+        k = rng.randrange(1, n)
+        variants = [('as-given', vs), ('start+%d' % k, vs[k:] + vs[:k]), ('reversed', vs[::-1])]
+        xs_, ys_ = [v[0] for v in vs], [v[1] for v in vs]
+        x0, x1, y0, y1 = min(xs_), max(xs_), min(ys_), max(ys_)
+        wx, wy = 0.1 * (x1 - x0), 0.1 * (y1 - y0)
+        pts = [(rng.uniform(x0 - wx, x1 + wx), rng.uniform(y0 - wy, y1 + wy)) for _ in range(npts)]
+        # degenerate rows of the winding loop: y exactly a vertex ordinate; the vertices themselves; edge midpoints
+        for _ in range(npts // 3):
+            pts.append((rng.uniform(x0 - wx, x1 + wx), rng.choice(ys_)))
+        for i in rng.sample(range(n), min(n, 12)):
+            a, b = vs[i], vs[(i + 1) % n]
+            pts += [a, (0.5 * (a[0] + b[0]), 0.5 * (a[1] + b[1]))]
+        # points on the internal edges of the triangulation (where the mesh can miss: finding C12-1)
+        for (a, b) in triangulation_edges(vs)[:40]:
+            for f in (0.5, 0.25, rng.random()):
+                pts.append((a[0] + f * (b[0] - a[0]), a[1] + f * (b[1] - a[1])))
+        ref = {}
+        for vname, vv in variants:
+            arr = np.ascontiguousarray(np.array(vv, dtype=np.float64))
+            st, mask = call(PolygonMask2D, arr)
+            if st != 'ok':
+                ctx.count('polymask:constructor-rejected:%s' % vname)
+                continue
+            mesh = Discrete2DMesh(arr, triangulate2d(arr), np.ones(len(arr) - 2), False, 0.0)
+            closed = np.ascontiguousarray(np.vstack((arr, arr[:1, :])))
+            tail = '%d %s %s' % (n, fs([v[0] for v in vv]), fs([v[1] for v in vv]))
+            mv = [float(mesh(x, y)) for x, y in pts]
+            lines = ['pmask %s %s %s %s' % (f2b(m), f2b(x), f2b(y), tail) for m, (x, y) in zip(mv, pts)]
+            outs = ctx.driver(lines)
+            follow = []
+            for (x, y), m, line, o in zip(pts, mv, lines, outs):
+                t = o.split()
+                got_pip = bool(_point_inside_polygon(closed, x, y))
+                got = float(mask(x, y))
+                ctx.traces += 1
+                ctx.count('polymask')
+                if m == 0.0 and got == 1.0:
+                    ctx.count('polymask:recovered-by-winding-number')
+                ctx.case(key=('polymask', name, vname, f2b(x), f2b(y)))
+                if len(t) != 3 or (t[1] == '1') != got_pip or b2f(t[2]) != got:
+                    ctx.disagreements += 1
+                    ctx.broke('correspondence', 'C12 stream polymask', dict(polygon=name, variant=vname, point=(x, y), mesh=m, model=o,
+                                                                             implementation=dict(point_inside_polygon=got_pip, mask=got)))
+                    continue
+                wn = int(t[0])
+                if vname == 'as-given':
+                    ref[(x, y)] = (wn, got_pip)
+                elif (x, y) in ref:
+                    w0, p0 = ref[(x, y)]
+                    if vname.startswith('start') and (wn != w0 or got_pip != p0):
+                        ctx.fail('C12:PolygonMask2D:start-vertex-dependence', 'polygon %s listed from vertex %s on: point_inside_polygon(%r, %r) = %r '
+                                 '(winding number %d), from vertex 0: %r (%d)' % (name, vname[6:], x, y, got_pip, wn, p0, w0), dict(polygon=name, point=(x, y)))
+                    if vname == 'reversed':
+                        if edge_distance(x, y, vs) <= 1e-9:
+                            ctx.count('polymask:reversal-guard-band')
+                        elif got_pip != p0 or wn != -w0:
+                            ctx.fail('C12:PolygonMask2D:orientation-dependence', 'polygon %s reversed: point_inside_polygon(%r, %r) = %r (winding number %d), '
+                                     'as given: %r (%d)' % (name, x, y, got_pip, wn, p0, w0), dict(polygon=name, point=(x, y)))
+                if ec is not None and vname == 'as-given' and ec.r[0] <= x <= ec.r[-1] and ec.z[0] <= y <= ec.z[-1]:
+                    st2, psn = call(ec.eq.psi_normalised, x, y)
+                    st3, ins = call(ec.eq.inside_lcfs, x, y)
+                    if st2 == 'ok' and st3 == 'ok':
+                        follow.append(('mask %s %s' % (t[2], f2b(psn)), ins, (x, y)))
+            # the equilibrium's own inside_lcfs = insideLcfs(model mask, psi_n)
+            if follow:
+                for (line, ins, pt), o in zip(follow, ctx.driver([f[0] for f in follow])):
+                    ctx.traces += 1
+                    ctx.count('polymask:inside_lcfs')
+                    if b2f(o) != ins:
+                        ctx.disagreements += 1
+                        ctx.broke('correspondence', 'C12 stream polymask:inside_lcfs', dict(polygon=name, point=pt, line=line, model=o, implementation=ins))
+
+
+# ------------------------------------------------------------------------------------------------ stream (f)
+def stream_history(ctx, ecs):
+    """S (round 6, seeded change "map2d caches mappings by id(profile)"): SEVERAL mappings on ONE equilibrium object with
+    ndarray profiles -- a loop of temporaries (freed arrays whose id is re-used), the same array updated in place and mapped
+    again, the same array with a different value_outside_lcfs, the same array on two equilibria; map2d, map3d, map_vector2d,
+    map_vector3d.  Model-free oracle: at grid nodes (psi_n known from the input grid: the interpolant passes through its knots;
+    inside / outside by the crossing number of the input polygon, guard band) every mapped function must equal raysect's own
+    interpolation of the profile passed in THAT call (resp. the outside value of THAT call) -- when it is created and again
+    at the end of the history, after all the other mappings."""
+    import gc
+    from raysect.core.math.function.float import Interpolator1DArray
+    rng = ctx.rng
+    X = np.linspace(0.0, 1.0, 11)
+
+    def vals(k):
+        return (100.0 * (k + 1)) * (1.0 - X ** (k % 5 + 1)) + 5.0 * k + 1.0
+
+    for ec in [e for e in ecs if e.name in ('example', 'generomak')] + [e for e in ecs if e.analytic][:ctx.n(1, 4)]:
+        eq = ec.eq
+        ins, outs = [], []
+        nodes = [(i, j) for i in range(1, len(ec.r) - 1) for j in range(1, len(ec.z) - 1)]
+        rng.shuffle(nodes)
+        for (i, j) in nodes:
+            r, z = float(ec.r[i]), float(ec.z[j])
+            pn = max(0.0, float(ec.normgrid[i, j]))
+            d = edge_distance(r, z, ec.vs)
+            if d <= 1e-3:
+                continue
+            if crossing(r, z, ec.vs):
+                if pn <= 0.98 and len(ins) < 4:
+                    ins.append((r, z, pn))
+            elif len(outs) < 2:
+                outs.append((r, z))
+            if len(ins) == 4 and len(outs) == 2:
+                break
+        if len(ins) < 2 or not outs:
+            ctx.count('history:equilibrium-skipped')
+            continue
+        phi = 0.7
+        made = []          # (label, kind, mapped function, expected profile values (per component), outside value)
+
+        def expect(v, pn):
+            return float(Interpolator1DArray(X, v, 'cubic', 'none', 0)(pn))
+
+        def verify(label, kind, f, v, outv, when):
+            for (r, z, pn) in ins:
+                ctx.count('history:evaluations')
+                ctx.case(key=('history', ec.name, label, kind, when, f2b(r), f2b(z)))
+                args = (r, z) if kind.endswith('2d') else (r * math.cos(phi), r * math.sin(phi), z)
+                st, got = call(f, *args)
+                if kind.startswith('map_vector'):
+                    want = expect(v[0], pn)
+                    mag2 = expect(v[1], pn) ** 2 + expect(v[2], pn) ** 2
+                    if st == 'ok':
+                        g = vt(got)
+                        # toroidal component and in-plane magnitude are basis independent
+                        tor = g[1] if kind.endswith('2d') else -g[0] * math.sin(phi) + g[1] * math.cos(phi)
+                        pol2 = g[0] ** 2 + g[2] ** 2 if kind.endswith('2d') else (g[0] * math.cos(phi) + g[1] * math.sin(phi)) ** 2 + g[2] ** 2
+                        ok = abs(tor - want) <= 1e-6 * (1 + abs(want)) and abs(pol2 - mag2) <= 1e-6 * (1 + mag2)
+                    else:
+                        ok = False
+                    shown = (want, mag2)
+                else:
+                    want = expect(v, pn)
+                    ok = st == 'ok' and abs(got - want) <= 1e-6 * (1 + abs(want))
+                    shown = want
+                if not ok:
+                    ctx.fail('C12:history:%s:not-the-profile-of-this-call' % kind,
+                             'equilibrium %s, %s (%s): %s(...)%r = %r but the profile passed in that call interpolated at psi_n = %r gives %r'
+                             % (ec.name, label, when, kind, args, got if st == 'ok' else st, pn, shown),
+                             dict(equilibrium=ec.desc, step=label, kind=kind, when=when, point=args, psin=pn))
+                    return False
+            for (r, z) in outs:
+                args = (r, z) if kind.endswith('2d') else (r * math.cos(phi), r * math.sin(phi), z)
+                st, got = call(f, *args)
+                if kind.startswith('map_vector'):
+                    w = outv if kind.endswith('2d') else (outv[0] * math.cos(phi) - outv[1] * math.sin(phi), outv[0] * math.sin(phi) + outv[1] * math.cos(phi), outv[2])
+                    ok = st == 'ok' and vclose(vt(got), w, 1e-12)
+                else:
+                    w = outv
+                    ok = st == 'ok' and got == outv
+                if not ok:
+                    ctx.fail('C12:history:%s:not-the-outside-value-of-this-call' % kind,
+                             'equilibrium %s, %s (%s): %s(...)%r = %r outside the LCFS, the outside value of that call is %r'
+                             % (ec.name, label, when, kind, args, got if st == 'ok' else st, w),
+                             dict(equilibrium=ec.desc, step=label, kind=kind, when=when, point=args))
+                    return False
+            return True
+
+        def vec_out(k):
+            from raysect.core import Vector3D
+            return Vector3D(0.5 + k, -1.0, 0.25 * k)
+
+        def build(kind, profs, outv):
+            if kind == 'map2d':
+                return call(eq.map2d, profs[0], outv)
+            if kind == 'map3d':
+                return call(eq.map3d, profs[0], outv)
+            return call(getattr(eq, kind), profs[0], profs[1], profs[2], vec_out(outv))
+
+        def step(label, kind, profs, v, outv):
+            st, f = build(kind, profs, outv)
+            if st != 'ok':
+                ctx.fail('C12:history:%s:valid-profile-rejected' % kind, 'equilibrium %s, %s: %s raised %s for a valid 2xN ndarray profile' % (ec.name, label, kind, st),
+                         dict(equilibrium=ec.desc, step=label, kind=kind))
+                return
+            ov = outv if not kind.startswith('map_vector') else vt(vec_out(outv))
+            vv = v[0] if not kind.startswith('map_vector') else v
+            if verify(label, kind, f, vv, ov, 'when created'):
+                made.append((label, kind, f, vv, ov))
+
+        kinds = ['map2d', 'map3d', 'map_vector2d', 'map_vector3d']
+        # (1) loop of temporaries: nothing but the mapping survives an iteration
+        seen_ids, reused = set(), 0
+        for k in range(ctx.n(8, 24)):
+            for kind in kinds:
+                nprof = 1 if not kind.startswith('map_vector') else 3
+                v = [vals(3 * k + c) for c in range(nprof)]
+                profs = [np.array([X, v[c]]) for c in range(nprof)]
+                for q in profs:
+                    if id(q) in seen_ids:
+                        reused += 1
+                    seen_ids.add(id(q))
+                step('temporary ndarray profile #%d' % k, kind, profs, v, -1.0)
+                del profs
+                gc.collect()
+        ctx.count('history:temporaries-with-a-reused-id', reused)
+        # (1b) forced: free an array, allocate until the id comes back (bounded), map the newcomer
+        for kind in ('map2d', 'map3d'):
+            a = np.array([X, vals(40)])
+            step('array A', kind, [a], [vals(40)], -1.0)
+            ida = id(a)
+            del a
+            gc.collect()
+            keep = []
+            for _ in range(200):
+                b = np.array([X, vals(41)])
+                if id(b) == ida:
+                    ctx.count('history:forced-id-reuse')
+                    step('array B allocated at the id of the freed array A', kind, [b], [vals(41)], -1.0)
+                    break
+                keep.append(b)
+            del keep
+        # (2) in-place update, then re-map
+        for kind in kinds:
+            nprof = 1 if not kind.startswith('map_vector') else 3
+            profs = [np.array([X, vals(50 + c)]) for c in range(nprof)]
+            step('persistent ndarray profile, first mapping', kind, profs, [vals(50 + c) for c in range(nprof)], -2.0)
+            for c in range(nprof):
+                profs[c][1, :] = vals(60 + c)
+            step('the same ndarray after an in-place update, mapped again', kind, profs, [vals(60 + c) for c in range(nprof)], -2.0)
+            # (3) the same array, other outside value
+            step('the same ndarray with another value_outside_lcfs', kind, profs, [vals(60 + c) for c in range(nprof)], 7.5)
+            step('the same ndarray, first outside value again', kind, profs, [vals(60 + c) for c in range(nprof)], -2.0)
+            # list / tuple / callable of the same data in between
+            if nprof == 1:
+                step('the same data as a nested list', kind, [profs[0].tolist()], [vals(60)], -2.0)
+                step('the same data as an Interpolator1DArray', kind, [Interpolator1DArray(X, vals(60), 'cubic', 'none', 0)], [vals(60)], -2.0)
+        # every mapping made during the history still is its own profile
+        for (label, kind, f, vv, ov) in made:
+            verify(label, kind, f, vv, ov, 'at the end of the history')
+        ctx.count('history:mappings', len(made))
+    # (4) one ndarray, two equilibrium objects: each maps it with its own psi_n
+    pair = [e for e in ecs if e.name in ('example', 'generomak')]
+    if len(pair) == 2:
+        prof = np.array([X, vals(70)])
+        fs_ = [call(e.eq.map2d, prof, -3.0) for e in pair]
+        for e, (st, f) in zip(pair, fs_):
+            for i in range(len(e.r) // 3, 2 * len(e.r) // 3, 2):
+                j = len(e.z) // 2
+                r, z, pn = float(e.r[i]), float(e.z[j]), max(0.0, float(e.normgrid[i, j]))
+                if crossing(r, z, e.vs) and pn <= 0.98 and edge_distance(r, z, e.vs) > 1e-3:
+                    want = float(Interpolator1DArray(X, vals(70), 'cubic', 'none', 0)(pn))
+                    st2, got = call(f, r, z) if st == 'ok' else (st, None)
+                    ctx.count('history:evaluations')
+                    if st2 != 'ok' or abs(got - want) > 1e-6 * (1 + abs(want)):
+                        ctx.fail('C12:history:map2d:shared-between-equilibria', 'one ndarray profile mapped on the example and the Generomak equilibrium: on %s map2d(%r, %r) = %r, '
+                                 'profile(psi_n = %r) = %r' % (e.name, r, z, got if st2 == 'ok' else st2, pn, want), dict(equilibrium=e.desc, point=(r, z)))
+                        break
+
+
 # ------------------------------------------------------------------------------------------------ stream (d)
 ARRAY_KEYS = ('r', 'z', 'psi', 'f', 'q', 'lcfs', 'lim')
 
@@ -1485,7 +1761,7 @@ def run(ctx):
     ctx.assumptions += ['points inside the (r, z) grid domain, r > 0; finite inputs',
                         'independent mask oracle keeps 1e-6 from polygon edges and 1e-9 from psi_n = 1 (guard band, counted)',
                         'direct helper-class oracles assert only for 1e-140 <= |b_pol| <= 1e140 (squares under/overflow outside; K still compares)']
-    ctx.lean_check(['Cherab.Props.C12'], 'Cherab/Audit/C12.lean')
+    ctx.lean_check(['Cherab.Props.C12', 'Cherab.Props.C12Mask'], 'Cherab/Audit/C12.lean')
 
     # driver sanity: pi and the model's op table
     o = ctx.driver(['pi', 'psin ' + f2b(-0.25), 'psin ' + f2b(0.25)])
@@ -1502,6 +1778,8 @@ def run(ctx):
     stream_shapes(ctx, ecs)
     stream_aliasing(ctx)
     stream_helpers(ctx)
+    stream_polymask(ctx, ecs)
+    stream_history(ctx, ecs)
     ctx.extra['equilibria'] = [dict(name=ec.name, sign=ec.sign, grid=list(ec.psi.shape), bpol_max=ec.bpol_max) for ec in ecs]
     ctx.extra['float_gap_note'] = ('PoloidalFieldVector/FluxSurfaceNormal/FluxCoordToCartesian raise ZeroDivisionError when b_x^2+b_z^2 underflows '
                                    '(|b_pol| < 1.5e-162, non-zero) and return the zero vector when it overflows; no in-domain point of any equilibrium reaches this')
